@@ -145,6 +145,24 @@ func mkRoot1() Root1 {
 	return Root1{RID: "root1", Emb: Emb{EID: "emb"}, EmbP: &EmbP{PID: "embp", Inner: Leaf{ID: "embp.inner"}}, A: mkMid("A"), B: &b, C: &c}
 }
 
+// Shadow exposes methods named like panrpc's own built-in closure entry point: the exposed object is
+// looked up first, so these application methods are the ones that run
+type Shadow struct {
+	ID  string
+	Sub ShadowSub
+}
+type ShadowSub struct{ ID string }
+
+func (s *Shadow) CallClosure(ctx context.Context, closureID string, args []interface{}) (interface{}, error) {
+	zooHit(s.ID, "CallClosure")
+	return "app", nil
+}
+func (s *Shadow) Get(ctx context.Context) (int, error) { zooHit(s.ID, "Get"); return 3, nil }
+func (s ShadowSub) CallClosure(ctx context.Context, x int) (int, error) {
+	zooHit(s.ID, "CallClosure")
+	return x, nil
+}
+
 // Expected: path -> "instance.method/argc" (argc = parameters without the context)
 type ZooRoot struct {
 	Name     string
@@ -222,6 +240,8 @@ func ZooRoots() []ZooRoot {
 		{Name: "leaf-pointer", Value: &Leaf{ID: "rootleafp"}, Callable: map[string]string{"Get": "rootleafp.Get/0", "Two": "rootleafp.Two/2", "Set": "rootleafp.Set/1", "Do": "rootleafp.Do/0"}},
 		{Name: "int-root", Value: 42, Callable: map[string]string{}},
 		{Name: "counter-root", Value: Counter(7), Callable: map[string]string{"Inc": "counter7.Inc/0"}},
+		{Name: "shadow-root", Value: &Shadow{ID: "shadow", Sub: ShadowSub{ID: "shadow.sub"}}, Callable: map[string]string{
+			"CallClosure": "shadow.CallClosure/2", "Get": "shadow.Get/0", "Sub.CallClosure": "shadow.sub.CallClosure/1"}},
 	}
 }
 
